@@ -74,6 +74,23 @@ func (ctx *EvalCtx) specialForm(name string, x *ast.CallExpr) (CV, bool) {
 			ctx.fail("protostring: not a struct")
 		}
 		return CV{f.App("protoString."+dt, SStr, val), types.Typ[types.String]}, true
+	case "protomarshal":
+		// protomarshal(m): the wire bytes of a protobuf message value, as a string (a function of the value)
+		v := ctx.eval(x.Args[0])
+		if v.typ == nil {
+			ctx.fail("protomarshal of untyped value")
+		}
+		t := v.typ
+		val := v.t
+		if pt, ok := types.Unalias(t).Underlying().(*types.Pointer); ok {
+			val = ex.load(ctx.state(), v.t, pt.Elem())
+			t = pt.Elem()
+		}
+		dt, _, ok := ex.tm.StructOf(t)
+		if !ok {
+			ctx.fail("protomarshal: not a struct")
+		}
+		return CV{f.App("protoMarshal."+dt, SStr, val), types.Typ[types.String]}, true
 	case "deref":
 		v := ctx.eval(x.Args[0])
 		pt, ok := types.Unalias(v.typ).Underlying().(*types.Pointer)
@@ -104,6 +121,9 @@ func specFuncExtra(ex *Exec, name string) SpecFn {
 // identified by their pointers, i.e. the model is shallow.)
 func (fr *Frame) protoStringModel(st *State, callee *ssa.Function, args []*Term) ([]*Term, bool) {
 	ex := fr.ex
+	if res, ok := fr.protoMarshalModel(st, callee, args); ok {
+		return res, true
+	}
 	if callee.Name() != "String" || len(args) != 1 || callee.Signature.Recv() == nil || callee.Signature.Params().Len() != 0 || callee.Signature.Results().Len() != 1 {
 		return nil, false
 	}
@@ -469,4 +489,62 @@ func init() {
 	extraSpecFuncs["upd"] = func(ctx *EvalCtx, a []CV) CV {
 		return CV{ctx.ex.f.Store(a[0].t, a[1].t, a[2].t), nil}
 	}
+}
+
+
+// protoMarshalModel: Marshal() of a generated protobuf message (file *.pb.go) returns a fresh byte slice whose
+// contents are a function of the message value (trusted: the wire encoding is deterministic; shallow like
+// protoStringModel). For a message whose fields are all scalars or strings the error is nil.
+func (fr *Frame) protoMarshalModel(st *State, callee *ssa.Function, args []*Term) ([]*Term, bool) {
+	ex := fr.ex
+	f := ex.f
+	if callee.Name() != "Marshal" || len(args) != 1 || callee.Signature.Recv() == nil || callee.Signature.Params().Len() != 0 || callee.Signature.Results().Len() != 2 {
+		return nil, false
+	}
+	pos := ex.W.prog.Fset.Position(callee.Pos())
+	if !strings.HasSuffix(pos.Filename, ".pb.go") {
+		return nil, false
+	}
+	rt := callee.Signature.Recv().Type()
+	val := args[0]
+	t := rt
+	if pt, ok := types.Unalias(rt).Underlying().(*types.Pointer); ok {
+		val = ex.load(st, args[0], pt.Elem())
+		t = pt.Elem()
+	}
+	dt, stt, ok := ex.tm.StructOf(t)
+	if !ok {
+		return nil, false
+	}
+	ex.trustedUsed["lib:generated protobuf Marshal() returns bytes that are a function of the message value (shallow): "+callee.String()] = true
+	content := f.App("protoMarshal."+dt, SStr, val)
+	ex.assume(st, f.Ge(ex.tm.StrLen(content), f.Int(0)))
+	plain := true
+	for i := 0; i < stt.NumFields(); i++ {
+		if _, ok := types.Unalias(stt.Field(i).Type()).Underlying().(*types.Basic); !ok {
+			plain = false
+		}
+	}
+	var errT *Term
+	if plain {
+		errT = f.Int(0)
+	} else {
+		errT = f.Fresh("marshal.err", SInt)
+		ex.assume(st, f.Ge(errT, f.Int(0)))
+	}
+	bs := ex.newBytesOf(st, content)
+	return []*Term{bs, errT}, true
+}
+
+// newBytesOf: a freshly allocated byte slice holding the bytes of the string s
+func (ex *Exec) newBytesOf(st *State, s *Term) *Term {
+	f := ex.f
+	r := ex.alloc(st)
+	ex.assume(st, f.Gt(r, f.Int(0)))
+	n := ex.tm.StrLen(s)
+	e := ex.comp(st, "E.uint8", ArraySort(SInt, ArraySort(SInt, SInt)))
+	arr := f.App("str.bytes_", ArraySort(SInt, SInt), s)
+	ex.setComp(st, "E.uint8", f.Store(e, r, arr))
+	ex.assumes = append(ex.assumes, f.Eq(f.App("str.frombytes_", SStr, arr, f.Int(0), n), s))
+	return f.Mk("Slice", r, f.Int(0), n, n)
 }
